@@ -58,8 +58,9 @@ CHECKS = {
                   "decode/encode steps of histories are covered by the differential run, not by a theorem."),
     "C05": dict(
         text="Lean theorems over the Python-faithful association-list model of Asset/MultiAsset/Value: add/sub exact per "
-             "asset over unbounded Int, results normal, == and <= component-wise (the latter proved on the region where it "
-             "is true, with a machine-checked counterexample outside), commutativity, associativity, a+b-b=a, a-a=0. Tied to "
+             "asset over unbounded Int, results normal, == component-wise on normal operands, <= / < component-wise for ALL "
+             "operands (le_iff without hypotheses, since the repair of KF-C05-le-negative), commutativity, associativity, "
+             "a+b-b=a, a-a=0. Tied to "
              "/repo by differential runs of model driver vs implementation on operand pairs and shared-variable histories.",
         ref="3 C05", technique="Lean 4 proof (refinement to asset -> Int) + model/implementation correspondence",
         note=TB + "operand immutability / aliasing freedom of the implementation is shown by the differential run only."),
